@@ -10,7 +10,7 @@ PROP = {
         # after EVERY store operation / EVERY delivered frame / with a store error at EVERY store operation,
         # each followed by a restart against the same store (so ~20-60 agent runs per history)
         {"name": "e2e", "crate": "core", "bin": "sv-c05", "machine": "c05",
-         "cases": {"quick": 1200, "thorough": 24000}, "min_shard": 20, "nontrivial_min_ops": 30},
+         "cases": {"quick": 1200, "thorough": 16000}, "min_shard": 20, "nontrivial_min_ops": 30},
     ],
     "rule": "a generated history (script of attach/link/sync/unlink/command/stall/drop steps from one SplitMix64 "
             "seed) is expanded into one case per end mode: clean stop, inactivity time-out, crash after the n-th "
